@@ -1401,9 +1401,9 @@ class RecurrencePlot(Cached):
         #  Get current recurrence matrix
         R = self.recurrence_matrix()
         #  Get number of neighbors for each state vector
-        nR = R.sum(axis=0)
+        nR = to_cy(R.sum(axis=0), NODE)
 
-        _twins_r(min_dist, N, R, nR, twins)
+        _twins_r(min_dist, N, to_cy(R, LAG), nR, twins)
         return twins
 
     def twin_surrogates(self, n_surrogates=1, min_dist=7):
